@@ -27,7 +27,7 @@ RULE = ("cross product dtype (14) x rank 0..5 x shape pool (incl. (0,), (0,3), (
 ASSUMPTIONS = ["law A1: h5py/libhdf5 store dtype, shape and bytes of an ndarray unchanged — the model cannot exhibit a "
                "libhdf5 conversion; this run is what exercises it"]
 
-DTYPES = ["float16", "float32", "float64", "int8", "int16", "int32", "int64", "uint8", "uint16",
+DTYPES = ["longlong", "ulonglong", "float16", "float32", "float64", "int8", "int16", "int32", "int64", "uint8", "uint16",
           "uint32", "uint64", "bool", "complex64", "complex128"]
 LAYOUTS = ["C", "F", "rev", "step", "T", "bcast"]
 VALS = ["nan", "zeros", "subnormal", "inf", "extreme", "ones", "random"]
@@ -259,7 +259,35 @@ def run(c):
             with quiet():
                 nir.write(tgt, g)
         except BaseException as e:  # noqa: BLE001
-            return Outcome(cops(r, ["file"], ("err", type(e).__name__)), None, False, sig)
+            numeric = arr is None or (isinstance(arr, np.ndarray) and arr.dtype.kind in "biufc")
+            return Outcome(cops(r, ["file"], ("err", type(e).__name__)),
+                           (f"nir.write rejected a graph whose tensors are all plain numeric arrays ({c['dt']}, shape {c['shape']}, field "
+                            f"{c['cls']}.{c['field']}): {type(e).__name__}: {e}") if numeric else None, False, sig)
+        if c["target"] in ("str", "path") and arr is not None and arr.dtype.kind in "fc" and arr.size:
+            # the same path written again with a tensor that is == to the first one but has other bits (zeros of the other sign)
+            try:
+                fld = get_field(g, c)
+                if all(isinstance(x, np.ndarray) and x.flags.writeable for x in fld):
+                    saved = [x.copy() for x in fld]
+                    for x in fld:
+                        x[...] = 0.0
+                    with quiet():
+                        nir.write(tgt, g)
+                    for x in fld:
+                        np.negative(x, out=x)          # +0 -> -0 everywhere (== says nothing changed)
+                    with quiet():
+                        nir.write(tgt, g)
+                        gz = nir.read(tgt)
+                    for x, y in zip(fld, get_field(gz, c)):
+                        if np.ascontiguousarray(x).tobytes() != np.ascontiguousarray(np.asarray(y)).tobytes():
+                            return Outcome(None, f"{c['cls']}.{c['field']} ({c['dt']}): the path was written with all +0, then with all -0 "
+                                                 f"(same graph object); reading gives the bits of the FIRST write", True, sig)
+                    for x, sv in zip(fld, saved):
+                        x[...] = sv
+                    with quiet():
+                        nir.write(tgt, g)
+            except Exception:
+                pass
         try:
             with quiet():
                 g2 = nir.read(tgt)
